@@ -180,6 +180,32 @@ class Ctx:
                     mism += [int(x) for x in re.findall(r'\d+', re.sub(r'%\w+', '', body))]
         return mism
 
+    def coqchk_all(self, timeout=3400):
+        """thorough tier only: rebuild the whole development from clean in a scratch copy
+        and re-check every compiled property module with the independent checker coqchk;
+        returns (ok, summary lines incl. the axioms it lists)"""
+        dst = os.path.join(self.work, "coqchk")
+        shutil.rmtree(dst, ignore_errors=True)
+        for sub in ("Base", "Model", "Proofs", "Properties", "Corr"):
+            os.makedirs(os.path.join(dst, sub), exist_ok=True)
+            for v in glob.glob(os.path.join(COQ, sub, "*.v")):
+                shutil.copy(v, os.path.join(dst, sub))
+        shutil.copy(os.path.join(COQ, "_CoqProject"), dst)
+        rc, out, _ = sh("coq_makefile -f _CoqProject -o Makefile && make -j16", cwd=dst, timeout=timeout)
+        if rc != 0:
+            self.proof_broken = "clean rebuild for coqchk failed:\n" + out[-2000:]
+            return False, []
+        mods = sorted("Verif.Properties." + os.path.basename(v)[:-2] for v in glob.glob(os.path.join(dst, "Properties", "*.v")))
+        cmd = "coqchk -silent -o -Q . Verif " + " ".join(mods)
+        self.checker_cmds.append("(clean copy) make -j16 && " + cmd)
+        rc, out, dt = sh(cmd, cwd=dst, timeout=timeout)
+        lines = [l.rstrip() for l in out.splitlines() if l.strip()]
+        ok = rc == 0 and any("Modules were successfully checked" in l for l in lines)
+        if not ok:
+            self.proof_broken = "coqchk failed:\n" + out[-2000:]
+        shutil.rmtree(dst, ignore_errors=True)
+        return ok, lines[-40:] + ["coqchk wall %.0fs" % dt]
+
     # ---------------------------------------------------------------- Go
     def go_harness(self, pkg, files, run, n=None, env=None, race=False, timeout=1500, extra_overlay=None, seed=None, tag="h"):
         """pkg: package dir relative to the repo ('speaker').  files: harness files
